@@ -251,6 +251,27 @@ def stepCodec (st : State) (toks : List String) : State × String :=
     let (_, synced) := ops.foldl (fun (acc : Int × Int) o =>
       if o == "s" then (acc.1, acc.1 - 1) else if o.startsWith "a" then (acc.1 + 1, acc.2) else acc) ((0 : Int), (-1 : Int))
     (st, "synced=" ++ toString synced ++ " durable=ok")
+  | "cw.shortfile" :: rest =>
+    -- the file of the current segment holds only the first `len` bytes of the segment. fact: the file is given its
+    -- size whenever it is shorter than the segment (then the rest reads as zeroes); otherwise the mapping reaches
+    -- behind the end of the file and touching it brings the process down
+    match ((DbProto.kvOf rest "len").getD "").toNat?, ((DbProto.kvOf rest "seg").getD "").toNat?, ((DbProto.kvOf rest "recs").getD "").toNat? with
+    | some l, some seg, some n =>
+      if l < seg && !Facts.walSegmentFileSizeEnsured then (st, "fatal error: fault") else
+      let payloads := (List.range n).map fun i => ("payload-" ++ toString i).toUTF8.toList.map (·.toNat)
+      -- the records that fit into the first `l` bytes
+      let fit := payloads.foldl (fun (acc : List (List Nat) × Nat) p =>
+        if acc.2 + 12 + p.length ≤ l ∧ acc.1.length = (payloads.takeWhile (· != p)).length then (acc.1 ++ [p], acc.2 + 12 + p.length) else acc) ([], 0)
+      let img := Codec.encodeAll (codecCfg "2") Codec.oxiaCrc 0 fit.1
+      let buf := img ++ List.replicate (seg - img.length) 0
+      let app := (((DbProto.kvOf rest "app").getD "0").toNat?).getD 0
+      (st, match Codec.recoverIndex (codecCfg "2") Codec.oxiaCrc buf 0 none with
+        | .ok r => "ok last=" ++ toString ((r.count : Int) - 1 + app)
+        | .errOutOfBounds => "err:oob"
+        | .errEmptyPayload => "err:empty"
+        | .errDataCorrupted => "err:corrupt"
+        | .panic => "panic")
+    | _, _, _ => (st, "bad-op")
   | "cw.reopen" :: buf :: uf :: _ =>
     -- the WAL opened on a single v2 segment image: `recoverWal` -> `newReadWriteSegment` -> `RecoverIndex`
     match Hex.decode buf, uf.toInt? with
